@@ -49,13 +49,13 @@ def wild_match(p, s):
 
 # -- MATCH -----------------------------------------------------------------
 def in_domain(vec, mode):
-    """mode 0: anything but errors.  mode 1 / -1: no blanks, strictly ascending
+    """mode 0: anything (error elements are never equal to a key).  mode 1 / -1: no blanks, strictly ascending
     / descending in Excel's order (which makes every typed block sorted and
     the blocks ordered numbers < text < logicals)."""
+    if mode == 0:
+        return True            # an error value among the keys equals nothing: it is skipped like an element of another type
     if any(v[0] == 'e' for v in vec):
         return False
-    if mode == 0:
-        return True
     if any(v[0] == 'blank' for v in vec):
         return False
     ks = [skey(v) for v in vec]
